@@ -32,6 +32,8 @@ type BGVCase struct {
 	Merges  []Merge   `json:"merges"`   // aggregation schedule of the decryption / refresh shares
 	Merges2 []Merge   `json:"merges2"`  // aggregation schedule of the re-encryption shares (share conversion only)
 	Getter  int       `json:"getter"`   // share conversion: party calling GetShare; == Parties: an external, key-less party
+	GetMode int       `json:"getMode"`  // GetShare output: 0 in place (own share), 1 a fresh share, 2 a re-used share with earlier content
+	Dirty   bool      `json:"dirtyReceivers"` // every receiver (shares, additive shares, aggregation outputs, re-encryption ciphertext) holds earlier content
 	Shallow bool      `json:"shallow"`
 
 	// refresh / transform only
@@ -158,6 +160,7 @@ func genBGVCommon(t *rapid.T) BGVCase {
 	c.Pattern = valuePatterns[rapid.IntRange(0, len(valuePatterns)-1).Draw(t, "pattern")]
 	c.Merges = genMerges(t, c.Parties)
 	c.Shallow = rapid.Bool().Draw(t, "shallow")
+	c.Dirty = rapid.Bool().Draw(t, "dirty")
 	return c
 }
 
@@ -165,6 +168,7 @@ func genBGVShares(t *rapid.T) BGVCase {
 	c := genBGVCommon(t)
 	c.Merges2 = genMerges(t, c.Parties)
 	c.Getter = rapid.IntRange(0, c.Parties).Draw(t, "getter")
+	c.GetMode = rapid.IntRange(0, 2).Draw(t, "getMode")
 	return c
 }
 
@@ -415,7 +419,7 @@ func scaleClass(s uint64) string {
 // ---- share conversion ------------------------------------------------------------------------------------------------
 
 func runBGVShares(c BGVCase, rec *h.Rec) error {
-	if !validMerges(c.Merges2, c.Parties) || c.Getter < 0 || c.Getter > c.Parties {
+	if !validMerges(c.Merges2, c.Parties) || c.Getter < 0 || c.Getter > c.Parties || c.GetMode < 0 || c.GetMode > 2 {
 		return nil
 	}
 	x, err := setupBGV(c, rec)
@@ -425,6 +429,10 @@ func runBGVShares(c BGVCase, rec *h.Rec) error {
 	params, n, ct := x.params, c.Parties, x.ct
 	ringT := params.RingT()
 	ctOrig := ct.CopyNew()
+	dd := dirtier{on: c.Dirty, rng: h.NewSplitMix(c.Seed ^ 0xd1b54a32d192ed03), rQ: params.RingQ()}
+	if c.Dirty {
+		rec.Class("receivers=earlier-content")
+	}
 
 	e2s0, err := mpbgv.NewEncToShareProtocol(params, x.noise)
 	if err != nil {
@@ -486,6 +494,8 @@ func runBGVShares(c BGVCase, rec *h.Rec) error {
 		p := e2s(i)
 		pub[i] = p.AllocateShare(levelE)
 		sec[i] = mpbgv.NewAdditiveShare(params)
+		dd.poly(pub[i].Value)
+		dd.polyMod(c.Params.T, sec[i].Value)
 		p.GenShare(x.in.shares[i], ct, &sec[i], &pub[i])
 		if pub[i].Level() != levelE {
 			return h.Failf("C16:mpbgv:EncToShare:GenShare:share-level", "public share level %d, allocated at %d (ct level %d)", pub[i].Level(), levelE, ct.Level())
@@ -511,7 +521,7 @@ func runBGVShares(c BGVCase, rec *h.Rec) error {
 			return h.Failf("C16:mpbgv:EncToShare:AggregateShares:error", "%v", err)
 		}
 	}
-	agg, err := fold(pub, c.Merges, func() multiparty.KeySwitchShare { return e2s0.AllocateShare(levelE) },
+	agg, err := fold(pub, c.Merges, func() multiparty.KeySwitchShare { a := e2s0.AllocateShare(levelE); dd.poly(a.Value); return a },
 		func(a, b multiparty.KeySwitchShare, o *multiparty.KeySwitchShare) error { return e2s0.AggregateShares(a, b, o) })
 	if err != nil {
 		return h.Failf("C16:mpbgv:EncToShare:AggregateShares:error", "%v", err)
@@ -523,10 +533,36 @@ func runBGVShares(c BGVCase, rec *h.Rec) error {
 	// GetShare by one key holder (in place, as in lattigo's tests) or by an external party
 	shares := append([]multiparty.AdditiveShare{}, sec...)
 	if c.Getter < n {
-		e2s(c.Getter).GetShare(&sec[c.Getter], agg, ct, &sec[c.Getter])
-		rec.Class("getter=keyholder")
+		g := c.Getter
+		aggSnap := *agg.Value.CopyNew()
+		switch c.GetMode {
+		case 0:
+			e2s(g).GetShare(&sec[g], agg, ct, &sec[g])
+			rec.Class("getter=keyholder,in-place")
+		default:
+			out := mpbgv.NewAdditiveShare(params)
+			if c.GetMode == 2 {
+				for j := range out.Value.Coeffs[0] {
+					out.Value.Coeffs[0][j] = dd.rng.Uint64() % c.Params.T // a share that was used before
+				}
+				rec.Class("getter=keyholder,out-of-place-reused")
+			} else {
+				rec.Class("getter=keyholder,out-of-place-fresh")
+			}
+			own := *sec[g].Value.CopyNew()
+			e2s(g).GetShare(&sec[g], agg, ct, &out)
+			if !ringT.Equal(own, sec[g].Value) {
+				return h.Failf("C16:mpbgv:EncToShare:GetShare:input-modified", "GetShare into another share modified the caller's own additive share")
+			}
+			shares[g] = out
+			sec[g] = out
+		}
+		if !agg.Value.Equal(&aggSnap) {
+			return h.Failf("C16:mpbgv:EncToShare:GetShare:input-modified", "GetShare modified the aggregated public share")
+		}
 	} else {
 		ext := mpbgv.NewAdditiveShare(params)
+		dd.polyMod(c.Params.T, ext.Value)
 		e2s0.GetShare(nil, agg, ct, &ext)
 		shares = append(shares, ext)
 		rec.Class("getter=external")
@@ -608,6 +644,7 @@ func runBGVShares(c BGVCase, rec *h.Rec) error {
 	for i := 0; i < n; i++ {
 		p := s2e(i)
 		c0[i] = p.AllocateShare(levelO)
+		dd.poly(c0[i].Value)
 		before := *sec[i].Value.CopyNew()
 		if err := p.GenShare(x.in.shares[i], crp, sec[i], &c0[i]); err != nil {
 			return h.Failf("C16:mpbgv:ShareToEnc:GenShare:error", "%v", err)
@@ -646,7 +683,7 @@ func runBGVShares(c BGVCase, rec *h.Rec) error {
 			return h.Failf("C16:mpbgv:ShareToEnc:AggregateShares:error", "%v", err)
 		}
 	}
-	agg2, err := fold(c0, c.Merges2, func() multiparty.KeySwitchShare { return s2e0.AllocateShare(levelO) },
+	agg2, err := fold(c0, c.Merges2, func() multiparty.KeySwitchShare { a := s2e0.AllocateShare(levelO); dd.poly(a.Value); return a },
 		func(a, b multiparty.KeySwitchShare, o *multiparty.KeySwitchShare) error { return s2e0.AggregateShares(a, b, o) })
 	if err != nil {
 		return h.Failf("C16:mpbgv:ShareToEnc:AggregateShares:error", "%v", err)
@@ -655,9 +692,14 @@ func runBGVShares(c BGVCase, rec *h.Rec) error {
 		return h.Failf("C16:mpbgv:ShareToEnc:AggregateShares:order-dependent", "aggregate depends on the schedule %v", c.Merges2)
 	}
 	ctRec := bgv.NewCiphertext(params, 1, levelO)
+	dd.poly(ctRec.Value[0], ctRec.Value[1])
+	agg2Snap, crpSnap := *agg2.Value.CopyNew(), *crp.Value.CopyNew()
 	*ctRec.MetaData = *ct.MetaData // as in lattigo's test: the message metadata travels with the shares
 	if err := s2e0.GetEncryption(agg2, crp, ctRec); err != nil {
 		return h.Failf("C16:mpbgv:ShareToEnc:GetEncryption:error", "%v", err)
+	}
+	if !agg2.Value.Equal(&agg2Snap) || !crp.Value.Equal(&crpSnap) {
+		return h.Failf("C16:mpbgv:ShareToEnc:GetEncryption:input-modified", "GetEncryption modified the aggregated share or the CRP")
 	}
 	if ctRec.Level() != levelO {
 		return h.Failf("C16:mpbgv:ShareToEnc:GetEncryption:output-level", "re-encryption at level %d, CRP at level %d", ctRec.Level(), levelO)
@@ -815,6 +857,12 @@ func runBGVRefresh(c BGVCase, rec *h.Rec) error {
 	}
 	skSnap := x.in.shares[0].Value.Q.CopyNew()
 	skOutSnap := outKeys.shares[0].Value.Q.CopyNew()
+	drng := h.NewSplitMix(c.Seed ^ 0xd1b54a32d192ed03)
+	dd := dirtier{on: c.Dirty, rng: drng, rQ: params.RingQ()}
+	ddO := dirtier{on: c.Dirty, rng: drng, rQ: paramsOut.RingQ()}
+	if c.Dirty {
+		rec.Class("receivers=earlier-content")
+	}
 
 	var prevOut *rlwe.Ciphertext // output ciphertext of the previous round, re-used as receiver
 
@@ -858,6 +906,8 @@ func runBGVRefresh(c BGVCase, rec *h.Rec) error {
 		for i := 0; i < n; i++ {
 			p := inst[i]
 			shares[i] = p.AllocateShare(r.levelE, r.levelO)
+			dd.poly(shares[i].EncToShareShare.Value)
+			ddO.poly(shares[i].ShareToEncShare.Value)
 			if c.Mode == "refresh" {
 				err = mpbgv.RefreshProtocol{MaskedTransformProtocol: p}.GenShare(x.in.shares[i], ct, crp, &shares[i])
 			} else {
@@ -946,7 +996,12 @@ func runBGVRefresh(c BGVCase, rec *h.Rec) error {
 				return h.Failf("C16:mpbgv:"+c.Mode+":AggregateShares:error", "%v", err)
 			}
 		}
-		agg, err := fold(shares, r.merges, func() multiparty.RefreshShare { return mtp0.AllocateShare(r.levelE, r.levelO) },
+		agg, err := fold(shares, r.merges, func() multiparty.RefreshShare {
+			a := mtp0.AllocateShare(r.levelE, r.levelO)
+			dd.poly(a.EncToShareShare.Value)
+			ddO.poly(a.ShareToEncShare.Value)
+			return a
+		},
 			func(a, b multiparty.RefreshShare, o *multiparty.RefreshShare) error { return mtp0.AggregateShares(a, b, o) })
 		if err != nil {
 			return h.Failf("C16:mpbgv:"+c.Mode+":AggregateShares:error", "%v", err)
